@@ -330,6 +330,10 @@ func (d *Document) addFootnoteOrEndnote(text string, noteText string, noteType F
 
 // AddFootnoteToRun 在现有Run中添加脚注引用
 func (d *Document) AddFootnoteToRun(run *Run, footnoteText string) error {
+	if run == nil {
+		return fmt.Errorf("添加脚注失败: run不能为空")
+	}
+
 	manager := d.getFootnoteManager()
 	d.ensureFootnoteInitialized(FootnoteTypeFootnote)
 
